@@ -629,3 +629,22 @@ mod tests {
         assert_eq!(FLAG.load(Ordering::Relaxed), unsafe { MAX_OBJECTS });
     }
 }
+
+#[cfg(circ_verif)]
+impl Local {
+    /// `(announced epoch << 1 | pinned, guard count, handle count)`, read without yielding.
+    pub(crate) fn verif_state(&self) -> (usize, usize, usize) {
+        (
+            self.epoch.verif_peek(),
+            self.guard_count.get(),
+            self.handle_count.get(),
+        )
+    }
+}
+
+#[cfg(circ_verif)]
+impl Global {
+    pub(crate) fn verif_epoch(&self) -> usize {
+        self.epoch.verif_peek()
+    }
+}
